@@ -80,7 +80,7 @@ def run(rep, tier, seed, replay_file=None):
     # 1. design level
     with bc.phase(rep, "impl-models"):
         if bc.run_impl(rep, bc.delivery_models(quick), workers=4 if quick else 5, parallel=2 if quick else 3):
-            bc.run_asis(rep, ["unsub"])
+            bc.run_asis(rep, ["unsub", "ctlbuf"])
     # 2. model -> code: driver schedules of BrokerStep, executed on the real broker, judged by BrokerTrace
     with bc.phase(rep, "schedule-generation"):
         scheds, _ = bc.gen_schedules(rep, quick, seed, 1100 if quick else 9000, ("focus", "busy"))
